@@ -21,7 +21,7 @@ def split_cases(lines):
     """lines: list of (cmd+obs dict, model dict|None). yields lists per case."""
     cur = []
     for ln in lines:
-        if ln[0].get("k") in ("case", "scase", "enccase") and cur:
+        if ln[0].get("k") in ("case", "scase", "enccase", "conccase") and cur:
             yield cur
             cur = []
         cur.append(ln)
@@ -720,6 +720,28 @@ def fault_recovers(case):
     return sconverge(case)
 
 
+def goroutines_serial(case):
+    """C20: in the forced witness schedule and in every stress run no update is lost, every issued
+    operation is queued exactly once in identifier order, nothing panics, nothing deadlocks."""
+    for idx, (ln, mo) in enumerate(case):
+        io = ln.get("obs", {})
+        if io.get("crash"):
+            return [dict(step=idx, what="process-crashed", detail=dict(cmd=strip(ln), msg=io.get("panicMsg", "")[:600]))]
+        if ln.get("k") == "witness" and ln.get("point") == "list.stale-validation":
+            if "panic" in str(io.get("g2")) or "deadlock" in str(io.get("g2")) or io.get("g1panic"):
+                return [dict(step=idx, what="stale-validation-panics", detail=dict(cmd=strip(ln), obs=io))]
+            continue
+        if ln.get("k") == "witness":
+            outs = [str(x) for x in io.get("outcomes", [])]
+            bad = [x for x in outs if "panic" in x or "deadlock" in x]
+            if bad or io.get("readPanic") or io.get("value") != 2 or io.get("seqs") != [1, 2, 3]:
+                return [dict(step=idx, what="forced-schedule-breaks-mutual-exclusion", detail=dict(cmd=strip(ln), obs=io))]
+        if ln.get("k") == "stress":
+            if io.get("deadlock") or io.get("panics") or io.get("seqGap") or io.get("queued") != io.get("expectedQueued") or io.get("value") != io.get("expected"):
+                return [dict(step=idx, what="concurrent-use-not-serial", detail=dict(cmd=strip(ln), obs=io))]
+    return []
+
+
 def hash_unique(case):
     """C15: no two timestamps of the exhaustive grid share an identifier key."""
     for idx, (ln, mo) in enumerate(case):
@@ -728,6 +750,6 @@ def hash_unique(case):
     return []
 
 
-ORACLES = dict(hash_unique=hash_unique, fault_recovers=fault_recovers, enc_roundtrip=enc_roundtrip, patch_target=patch_target, loginv=loginv, sconverge=sconverge, refused_noop=refused_noop,
+ORACLES = dict(hash_unique=hash_unique, goroutines_serial=goroutines_serial, fault_recovers=fault_recovers, enc_roundtrip=enc_roundtrip, patch_target=patch_target, loginv=loginv, sconverge=sconverge, refused_noop=refused_noop,
                isolation=isolation, notify=notify, contract=contract, corr=corr, spec=spec, converge=converge, err_noop=err_noop, no_panic=no_panic,
                seq_gapless=seq_gapless, list_order=list_order, twin=twin, tx_atomic=tx_atomic)
